@@ -133,20 +133,20 @@ theorem hden_eq (g : Graph) (d : DenCfg) (h : g.output < g.nodes.length) : hden 
 /-! ### the theorem -/
 
 /-- what the caller of `Graph.__call__` observes -/
-def ValueSpec (g : Graph) (d : DenCfg) : Outcome → Prop
+def ValueSpec (g : Graph) (d : DenCfg) (faults : Bool) : Outcome → Prop
   | .done x _ => ∃ v, x = .val v ∧ vden g d = .ok v
-  | .raised e _ => (∃ fn, e = .user fn) ∨ vden g d = .error e
+  | .raised e _ => (∃ fn, e = .user fn ∧ faults = true) ∨ vden g d = .error e
   | .next _ => False
 
 /-- what the caller of `Graph.get_hash` observes -/
-def HashSpec (g : Graph) (d : DenCfg) : Outcome → Prop
+def HashSpec (g : Graph) (d : DenCfg) (faults : Bool) : Outcome → Prop
   | .done x _ => hden g d = x.asHout.map (·.1)
-  | .raised e _ => (∃ fn, e = .user fn) ∨ hden g d = .error e
+  | .raised e _ => (∃ fn, e = .user fn ∧ faults = true) ∨ hden g d = .error e
   | .next _ => False
 
 /-- **`vm_correct`, values.**  The machine stops, and returns / raises what the denotation prescribes. -/
 theorem call_correct (g : Graph) (ok : GraphOK g) (env : String → Option Val) (w : World) (hc : CallOK g env) :
-    ∃ N o steps, (∀ fuel, N ≤ fuel → g.call env w fuel = some (o, steps)) ∧ ValueSpec g (denCfgOf env w) o := by
+    ∃ N o steps, (∀ fuel, N ≤ fuel → g.call env w fuel = some (o, steps)) ∧ ValueSpec g (denCfgOf env w) (!w.failAt.isEmpty) o := by
   have ht := topo_of_ok g ok
   have hs := init_memSound g env w hc
   have hi := init_cinv g ht env w hc
@@ -168,12 +168,14 @@ theorem call_correct (g : Graph) (ok : GraphOK g) (env : String → Option Val) 
     refine ⟨N, .raised e s'', steps, fun fuel hfuel => ?_, ?_⟩
     · simp only [Graph.call, initSt_eq]; exact hN fuel hfuel
     · cases big_raised g (denCfgOf env w) ok f (.value g.output) true _ Ghost.none e m' hs hi hact hq with
-      | inl hu => exact Or.inl hu
+      | inl hu =>
+        obtain ⟨fn, h1, h2⟩ := hu
+        exact Or.inl ⟨fn, h1, by simpa [Graph.initMem, List.isEmpty_iff] using h2⟩
       | inr hpe => exact Or.inr (by rw [vden_eq g _ hc.outRange]; exact hpe)
 
 /-- **`vm_correct`, node hashes.** -/
 theorem getHash_correct (g : Graph) (ok : GraphOK g) (env : String → Option Val) (w : World) (hc : CallOK g env) :
-    ∃ N o steps, (∀ fuel, N ≤ fuel → g.getHash env w fuel = some (o, steps)) ∧ HashSpec g (denCfgOf env w) o := by
+    ∃ N o steps, (∀ fuel, N ≤ fuel → g.getHash env w fuel = some (o, steps)) ∧ HashSpec g (denCfgOf env w) (!w.failAt.isEmpty) o := by
   have ht := topo_of_ok g ok
   have hs := init_memSound g env w hc
   have hi := init_cinv g ht env w hc
@@ -196,7 +198,9 @@ theorem getHash_correct (g : Graph) (ok : GraphOK g) (env : String → Option Va
     refine ⟨N, .raised e s'', steps, fun fuel hfuel => ?_, ?_⟩
     · simp only [Graph.getHash, initSt_eq]; exact hN fuel hfuel
     · cases big_raised g (denCfgOf env w) ok f (.hash g.output) true _ Ghost.none e m' hs hi hact hq with
-      | inl hu => exact Or.inl hu
+      | inl hu =>
+        obtain ⟨fn, h1, h2⟩ := hu
+        exact Or.inl ⟨fn, h1, by simpa [Graph.initMem, List.isEmpty_iff] using h2⟩
       | inr hpe =>
         right
         simp only [PostErr] at hpe
